@@ -8,6 +8,9 @@
 //        serialise again; answer: one canonical line (see docCase)
 //   seq <step> | <step> ...                one DOMLSSerializer instance writes several documents (see seqCase)
 //   fseq <enc> <unrep> <ver> (<mode> <hex16>)+  one XMLFormatter formats several buffers (see doFseq)
+//   encsel <LSOutput.encoding|-> <inputEncoding|-> <xmlEncoding|-> <xmlVersion|-> <0 write | 1 writeToString>
+//        document <r/> with these properties; answer: ok <version written> <encoding written> <hexbytes>
+//        (names as hex16; the XML declaration of the output is the observation)
 //   src <enc> <feats> <hexbytes>           same, but the first tree is parsed from the given document bytes
 //
 // feats: letters followed by 0/1: x xml-declaration, s split-cdata-sections, d discard-default-content, b BOM,
@@ -16,6 +19,7 @@
 // tree : D <nchild> node*            document
 //        E <uri|-> <qname> <nattr> (<uri|-> <qname> <value>)* <nchild> node*
 //        T <hex> | C <hex> (CDATA) | M <hex> (comment) | P <target> <data>
+//        Y <name> <publicId|-> <systemId|->   DocumentType (createDocumentType) | R <name>  EntityReference
 //        all strings are groups of 4 hex digits (UTF-16 units), "-" = empty / null
 #include "xh_common.hpp"
 #include <xercesc/framework/XMLFormatter.hpp>
@@ -24,6 +28,7 @@
 #include <xercesc/util/TransService.hpp>
 #include <xercesc/util/TranscodingException.hpp>
 #include <xercesc/dom/DOM.hpp>
+#include <xercesc/dom/impl/DOMDocumentImpl.hpp>
 #include <xercesc/parsers/XercesDOMParser.hpp>
 #include <xercesc/sax/ErrorHandler.hpp>
 #include <xercesc/sax/SAXParseException.hpp>
@@ -153,6 +158,11 @@ struct Builder {
         if (k == "C") { auto s = toStr(next()); return doc->createCDATASection(s.data()); }
         if (k == "M") { auto s = toStr(next()); return doc->createComment(s.data()); }
         if (k == "P") { auto a = toStr(next()); auto b = toStr(next()); return doc->createProcessingInstruction(a.data(), b.data()); }
+        if (k == "Y") {     // Y <name> <publicId|-> <systemId|->  : DocumentType built through the API
+            auto nm = toStr(next()); std::string p = next(), q = next(); auto pb = toStr(p), sy = toStr(q);
+            return doc->createDocumentType(nm.data(), p == "-" ? 0 : pb.data(), q == "-" ? 0 : sy.data());
+        }
+        if (k == "R") { auto nm = toStr(next()); return doc->createEntityReference(nm.data()); }
         if (k == "E") {
             std::string u = next(); auto uri = toStr(u); auto qn = toStr(next());
             DOMElement* e = ns ? doc->createElementNS(u == "-" ? 0 : uri.data(), qn.data()) : doc->createElement(qn.data());
@@ -198,7 +208,10 @@ static void dump(std::string& o, const DOMNode* n, bool merge, bool dropNs = fal
         o += "}("; break; }
     case DOMNode::COMMENT_NODE: o += "M["; hexStr(o, n->getNodeValue()); o += "]"; return;
     case DOMNode::PROCESSING_INSTRUCTION_NODE: o += "P["; hexStr(o, n->getNodeName()); o += ","; hexStr(o, n->getNodeValue()); o += "]"; return;
-    case DOMNode::DOCUMENT_TYPE_NODE: o += "Y["; hexStr(o, n->getNodeName()); o += "]"; return;
+    case DOMNode::DOCUMENT_TYPE_NODE: {
+        const DOMDocumentType* dt = (const DOMDocumentType*)n;
+        o += "Y["; hexStr(o, n->getNodeName()); o += ","; hexStr(o, dt->getPublicId()); o += ","; hexStr(o, dt->getSystemId());
+        o += ","; hexStr(o, dt->getInternalSubset()); o += "]"; return; }
     case DOMNode::ENTITY_REFERENCE_NODE: o += "R["; hexStr(o, n->getNodeName()); o += "]"; return;
     default: o += "?"; return;
     }
@@ -297,7 +310,7 @@ static SerResult serialise(DOMImplementationLS* impl, DOMNode* n, const char* en
 // re-parse [bytes] and compare with [doc]: " reparse=.. eq=.. res=.."
 static std::string evalOutput(DOMDocument* doc, const std::string& resolved0, const std::vector<XMLByte>& bytes, const Feats& f) {
     XercesDOMParser p1; ParseErrs pe1;
-    p1.setDoNamespaces(f.n); p1.setErrorHandler(&pe1); p1.setCreateEntityReferenceNodes(f.e);
+    p1.setDoNamespaces(f.n); p1.setErrorHandler(&pe1); p1.setCreateEntityReferenceNodes(f.e); p1.setLoadExternalDTD(false);
     std::string rp = "ok";
     try {
         MemBufInputSource is(bytes.data(), bytes.size(), "serN");
@@ -412,6 +425,7 @@ static std::string docCase(const std::vector<std::string>& a, bool fromSource) {
             p0->setDoNamespaces(f.n);
             p0->setErrorHandler(&pe0);
             p0->setCreateEntityReferenceNodes(f.e);
+            p0->setLoadExternalDTD(false);
             MemBufInputSource is(srcBytes.data(), srcBytes.size(), "src");
             p0->parse(is);
             if (!pe0.first.empty()) { std::string r = "src-rejected " + pe0.first; delete p0; return r; }
@@ -455,6 +469,7 @@ static std::string docCase(const std::vector<std::string>& a, bool fromSource) {
     p1.setDoNamespaces(f.n);
     p1.setErrorHandler(&pe1);
     p1.setCreateEntityReferenceNodes(f.e);
+    p1.setLoadExternalDTD(false);
     std::string rp = "ok";
     try {
         MemBufInputSource is(s1.bytes.data(), s1.bytes.size(), "ser1");
@@ -486,7 +501,7 @@ static std::string docCase(const std::vector<std::string>& a, bool fromSource) {
             // same length, different bytes: is the second serialisation a fixed point (attributes merely written in
             // another order because the first tree's attribute map was not in sorted order)?
             XercesDOMParser p2; ParseErrs pe2;
-            p2.setDoNamespaces(f.n); p2.setErrorHandler(&pe2); p2.setCreateEntityReferenceNodes(f.e);
+            p2.setDoNamespaces(f.n); p2.setErrorHandler(&pe2); p2.setCreateEntityReferenceNodes(f.e); p2.setLoadExternalDTD(false);
             try {
                 MemBufInputSource is2(s2.bytes.data(), s2.bytes.size(), "ser2");
                 p2.parse(is2);
@@ -502,6 +517,66 @@ static std::string docCase(const std::vector<std::string>& a, bool fromSource) {
     } else out += " eq=- res=- idem=-";
     if (!fromSource) doc->release();
     delete p0;
+    return out;
+}
+
+// encsel: which encoding / version DOMLSSerializerImpl::write and writeToString pick
+static std::string encSel(const std::vector<std::string>& a) {
+    static const XMLCh ls[] = { 'L', 'S', 0 };
+    DOMImplementation* impl = DOMImplementationRegistry::getDOMImplementation(ls);
+    DOMImplementationLS* implLS = (DOMImplementationLS*)impl;
+    DOMDocument* doc = impl->createDocument();
+    static const XMLCh r[] = { 'r', 0 };
+    doc->appendChild(doc->createElement(r));
+    auto oe = toStr(a[1]), ie = toStr(a[2]), xe = toStr(a[3]), xv = toStr(a[4]);
+    DOMDocumentImpl* di = (DOMDocumentImpl*)doc;
+    if (a[2] != "-") di->setInputEncoding(ie.data());
+    if (a[3] != "-") di->setXmlEncoding(xe.data());
+    std::string out;
+    try {
+        if (a[4] != "-") doc->setXmlVersion(xv.data());
+    } catch (const DOMException& e) { doc->release(); return "build-exc:DOMException:" + std::to_string((int)e.code); }
+    DOMLSSerializer* ser = implLS->createLSSerializer();
+    try {
+        std::vector<XMLCh> text;
+        std::string raw;
+        if (a[5] == "1") {
+            XMLCh* s = ser->writeToString(doc);
+            if (!s) out = "fail";
+            else { for (XMLCh* p = s; *p; ++p) text.push_back(*p); raw = "-"; XMLString::release(&s); }
+        } else {
+            DOMLSOutput* o = implLS->createLSOutput();
+            MemBufFormatTarget tgt;
+            if (a[1] != "-") o->setEncoding(oe.data());
+            o->setByteStream(&tgt);
+            bool ok = ser->write(doc, o);
+            if (!ok) out = "fail";
+            raw = showHex(tgt.getRawBuffer(), tgt.getLen(), 2);
+            // the declaration is ASCII in every encoding used here, or UTF-16 (BOM-less, native order)
+            const XMLByte* b = tgt.getRawBuffer(); XMLSize_t n = tgt.getLen();
+            bool wide = n >= 2 && b[1] == 0;
+            for (XMLSize_t i = 0; i + (wide ? 1 : 0) < n; i += (wide ? 2 : 1)) text.push_back((XMLCh)(wide ? (b[i] | (b[i + 1] << 8)) : b[i]));
+            o->release();
+        }
+        if (out.empty()) {
+            // <?xml version="V" encoding="E" standalone=...
+            std::string h; std::vector<XMLCh> ver, enc; int q = 0;
+            for (size_t i = 0; i < text.size(); i++) {
+                if (text[i] == '"') { q++; continue; }
+                if (q == 1) ver.push_back(text[i]);
+                if (q == 3) enc.push_back(text[i]);
+                if (q >= 4) break;
+            }
+            ver.push_back(0); enc.push_back(0);
+            std::string hv, he; hexStr(hv, ver.data()); hexStr(he, enc.data());
+            out = "ok " + hv + " " + he + " " + raw;
+        }
+    } catch (const DOMLSException& e) { out = "exc:DOMLSException:" + std::to_string((int)e.code); }
+    catch (const DOMException& e) { out = "exc:DOMException:" + std::to_string((int)e.code); }
+    catch (const XMLException& e) { out = "exc:" + excName(e); }
+    catch (...) { out = "exc:unknown"; }
+    ser->release();
+    doc->release();
     return out;
 }
 
@@ -531,6 +606,7 @@ int main() {
             else if (a.size() >= 6 && a[0] == "seq") r = seqCase(a);
             else if (a.size() >= 6 && a[0] == "fseq") r = doFseq(a);
             else if (a.size() == 4 && a[0] == "src") r = docCase(a, true);
+            else if (a.size() == 6 && a[0] == "encsel") r = encSel(a);
         } catch (const XMLException& e) { r = "uncaught:" + excName(e); }
         catch (const DOMException& e) { r = "uncaught:DOMException:" + std::to_string((int)e.code); }
         catch (const OutOfMemoryException&) { r = "uncaught:OutOfMemory"; }
